@@ -1005,9 +1005,9 @@ var c09OtherNode = func() data.UnixFSData {
 }()
 
 // Long packed block-size runs (a file node with tens of thousands of children, as other writers pack them): 65535 .. 200000
-// entries decode to what the reference decodes.
+// entries, and runs around and beyond 2^20 entries, decode to what the reference decodes.
 func TestC09_R_VeryLongPackedRuns(t *testing.T) {
-	for _, n := range []int{65535, 65536, 65537, 70000, 200000} {
+	for _, n := range []int{65535, 65536, 65537, 70000, 200000, 1 << 20, 1<<20 + 1, 1<<20 + 4097, 2<<20 + 3} {
 		var run []byte
 		want := make([]uint64, n)
 		for i := 0; i < n; i++ {
